@@ -271,3 +271,49 @@ Example wf_example :
                        mkGate 4 0 2 INV; mkGate 2 1 5 XNOR; mkGate 5 4 6 AND;
                        mkGate 6 3 7 OR]) = true.
 Proof. vm_compute. reflexivity. Qed.
+
+(* every output wire of a garbling satisfies L1 = L0 xor R *)
+Lemma garble_output_wires_ok pi rnd scratch c :
+  wf c = true ->
+  let g := garble pi rnd scratch c in
+  forall o, In o (output_wires c) -> L1 (nth o (gWires g) w0) = lxor (L0 (nth o (gWires g) w0)) (gR g).
+Proof.
+  intros Hwf g o Ho.
+  (* re-run the simulation to extract wire_ok; any input works *)
+  set (x := repeat false (ninputs c)).
+  assert (Hx : length x = ninputs c) by apply repeat_length.
+  unfold wf in Hwf.
+  apply andb_prop in Hwf; destruct Hwf as [Hwf Hout].
+  apply andb_prop in Hwf; destruct Hwf as [Hwf Hgs].
+  apply andb_prop in Hwf; destruct Hwf as [Hni Hno].
+  apply Nat.leb_le in Hni.
+  set (r := setS (rnd 0%nat)).
+  assert (Hr : sbit r = true) by apply sbit_setS.
+  set (n := nwires c) in *. set (ni := ninputs c) in *.
+  set (gw0 := input_wires r rnd ni ++ firstn (n - ni) (skipn ni scratch ++ repeat w0 n)).
+  assert (Lgw0 : length gw0 = n).
+  { unfold gw0, input_wires. rewrite app_length, map_length, seq_length, firstn_length.
+    rewrite app_length, repeat_length. lia. }
+  assert (Hin0 : forall w, (w < ni)%nat ->
+            nth w gw0 w0 = mkWire (rnd (S w)) (lxor (rnd (S w)) r)).
+  { intros w Hw. unfold gw0. rewrite app_nth1 by (unfold input_wires; rewrite map_length, seq_length; exact Hw).
+    unfold input_wires. apply (nth_map_seq (fun i => mkWire (rnd (S i)) (lxor (rnd (S i)) r))). exact Hw. }
+  set (ew0 := map (fun w => pick (nth w gw0 w0) (nth w (init_wires c x) false)) (seq 0 n)).
+  pose proof (sim pi r n ni Hr (gates c) gw0 ew0 (init_wires c x) (init_asg c) 0) as SIM.
+  unfold g, garble. fold r ni n gw0.
+  destruct (garble_gates pi r gw0 0 (gates c)) as [[gwf idf] rows].
+  cbn [gR gWires].
+  destruct SIM as (ewf & _ & HI).
+  - unfold Inv. split; [exact Lgw0|].
+    split. { unfold ew0. rewrite map_length, seq_length. reflexivity. }
+    split. { unfold init_wires. fold ni n. rewrite app_length, firstn_length, repeat_length. lia. }
+    split. { unfold init_asg. fold ni n. rewrite app_length, !repeat_length. lia. }
+    intros w Hw. unfold init_asg in Hw. apply nth_init_asg_true in Hw. fold ni in Hw.
+    split. { rewrite (Hin0 w Hw). reflexivity. }
+    unfold ew0.
+    apply (nth_map_seq (fun w1 => pick (nth w1 gw0 w0) (nth w1 (init_wires c x) false))). lia.
+  - exact Hgs.
+  - destruct HI as (_ & _ & _ & _ & HI).
+    rewrite forallb_forall in Hout. specialize (Hout o Ho).
+    destruct (HI o Hout) as [Wo _]. exact Wo.
+Qed.
